@@ -59,6 +59,36 @@ Definition coef_cell (up lo base old d : Q) (normalized : bool) : cell :=
   let raw := xdiv (up - lo) (2 * d * old) in
   if normalized then xmul raw (xdiv old base) else raw.
 
+(** The DISPLACEMENT RULE is a regenerated fact ([f_quot] below):
+    - [QuotCentralRel]      the two points are old * (1 +- d), the quotient divides by 2 * d * old
+                            (every routine of the tree up to and including d0000dc);
+    - [QuotCentralRelAbs0]  the same through the helper [_displace(value, displacement)], which
+                            displaces a value that is exactly 0 by +-d in ABSOLUTE terms and divides
+                            by 2 * d (fixes/C18-zero-state.diff);
+    - [QuotUnknown]         anything else (breaks C18_facts_pinned; computed like QuotCentralRel). *)
+Inductive quot_kind := QuotCentralRel | QuotCentralRelAbs0 | QuotUnknown.
+
+Definition disp_up (q : quot_kind) (old d : Q) : Q :=
+  match q with
+  | QuotCentralRelAbs0 => if Qeq_bool old 0 then d else old * (1 + d)
+  | _ => old * (1 + d)
+  end.
+Definition disp_lo (q : quot_kind) (old d : Q) : Q :=
+  match q with
+  | QuotCentralRelAbs0 => if Qeq_bool old 0 then - d else old * (1 - d)
+  | _ => old * (1 - d)
+  end.
+Definition disp_width (q : quot_kind) (old d : Q) : Q :=
+  match q with
+  | QuotCentralRelAbs0 => if Qeq_bool old 0 then 2 * d else 2 * d * old
+  | _ => 2 * d * old
+  end.
+
+(** [(upper - lower) / distance], then [*= old / base] when normalised *)
+Definition coef_cell_q (q : quot_kind) (up lo base old d : Q) (normalized : bool) : cell :=
+  let raw := xdiv (up - lo) (disp_width q old d) in
+  if normalized then xmul raw (xdiv old base) else raw.
+
 (* ------------------------------------------------------------------------------------- *)
 (** * model-touching statements (regenerated from the source) *)
 
@@ -96,8 +126,8 @@ Record regs := mkRegs {
 }.
 Definition regs0 : regs := mkRegs None None [] [].
 
-Definition perturbed (w : which) (old d : Q) : Q :=
-  match w with Up => old * (1 + d) | Down => old * (1 - d) | Back => old end.
+Definition perturbed (q : quot_kind) (w : which) (old d : Q) : Q :=
+  match w with Up => disp_up q old d | Down => disp_lo q old d | Back => old end.
 
 Definition view (i : nat) (st : mstate) (rg : regs) : option (mstate * regs) :=
   if existsb (Nat.eqb i) (r_viewed rg) then Some (st, rg)
@@ -113,7 +143,7 @@ Definition save_y0 (y : alist) (inits : alist) : option alist :=
                             | _, _ => None end) (Some []) y.
 
 (** one statement; [None] = the Python code raises (KeyError / NameError) *)
-Definition exec_stmt (p : name) (y0 : option alist) (normalized : bool) (d : Q)
+Definition exec_stmt (q : quot_kind) (p : name) (y0 : option alist) (normalized : bool) (d : Q)
            (s : stmt) (st : mstate) (rg : regs) : option (mstate * regs) :=
   match s with
   | SReadOld =>
@@ -139,7 +169,7 @@ Definition exec_stmt (p : name) (y0 : option alist) (normalized : bool) (d : Q)
   | SSetPar w =>
       match r_old rg with
       | Some old => if has p (st_pars st)
-                    then Some (mkState (set p (perturbed w old d) (st_pars st)) (st_inits st), rg)
+                    then Some (mkState (set p (perturbed q w old d) (st_pars st)) (st_inits st), rg)
                     else None
       | None => None
       end
@@ -160,26 +190,25 @@ Definition exec_stmt (p : name) (y0 : option alist) (normalized : bool) (d : Q)
   | SUnknown => None
   end.
 
-Fixpoint exec_prog (p : name) (y0 : option alist) (normalized : bool) (d : Q)
+Fixpoint exec_prog (q : quot_kind) (p : name) (y0 : option alist) (normalized : bool) (d : Q)
          (prog : list stmt) (st : mstate) (rg : regs) : option (mstate * regs) :=
   match prog with
   | [] => Some (st, rg)
   | s :: rest =>
-      match exec_stmt p y0 normalized d s st rg with
-      | Some (st', rg') => exec_prog p y0 normalized d rest st' rg'
+      match exec_stmt q p y0 normalized d s st rg with
+      | Some (st', rg') => exec_prog q p y0 normalized d rest st' rg'
       | None => None
       end
   end.
 
 (** what is regenerated from src/mxlpy/mca.py *)
-Inductive quot_kind := QuotCentralRel | QuotUnknown.
 Record mca_facts := mkFacts {
   f_disp : list Q ;             (* `displacement` defaults of the worker and the three public routines *)
   f_var_prog : list stmt ;      (* model-touching statements of one iteration of variable_elasticities *)
   f_par_prog : list stmt ;      (* ... of one iteration of parameter_elasticities *)
   f_worker_prog : list stmt ;   (* ... of _response_coefficient_worker *)
-  f_quot : quot_kind            (* every quotient is (upper - lower) / (2 * displacement * old), every
-                                   scaling is  *= old / <unperturbed> *)
+  f_quot : quot_kind            (* the displacement rule shared by all three routines: the two points,
+                                   the divisor of every quotient; every scaling is  *= old / <unperturbed> *)
 }.
 
 (* ------------------------------------------------------------------------------------- *)
@@ -199,14 +228,15 @@ Section Routines.
     end.
 
   Definition column (up lo base : list Q) (old d : Q) (normalized : bool) : list cell :=
-    map (fun t => match t with (u, l, b) => coef_cell u l b old d normalized end) (zip3 up lo base).
+    map (fun t => match t with (u, l, b) => coef_cell_q (f_quot facts) u l b old d normalized end) (zip3 up lo base).
 
   (** variable_elasticities: pure, the model is only read *)
   Definition var_column (d : Q) (normalized : bool) (pars vars : alist) (x : name) : option (list cell) :=
     match get x vars with
     | None => None
     | Some old =>
-        match fluxes pars (merge x (old * (1 + d)) vars), fluxes pars (merge x (old * (1 - d)) vars) with
+        match fluxes pars (merge x (disp_up (f_quot facts) old d) vars),
+              fluxes pars (merge x (disp_lo (f_quot facts) old d) vars) with
         | Some up, Some lo =>
             if normalized then
               match fluxes pars vars with
@@ -232,7 +262,7 @@ Section Routines.
   (** one iteration of parameter_elasticities *)
   Definition par_step (d : Q) (normalized : bool) (vars : alist) (p : name) (st : mstate)
     : option (mstate * list cell) :=
-    match exec_prog p None normalized d (f_par_prog facts) st regs0 with
+    match exec_prog (f_quot facts) p None normalized d (f_par_prog facts) st regs0 with
     | Some (st', rg) =>
         match r_old rg, r_obs rg with
         | Some old, s_up :: s_lo :: rest =>
@@ -300,7 +330,7 @@ Section Routines.
 
   Definition worker (d : Q) (normalized : bool) (y0 : option alist) (p : name) (st : mstate)
     : option (mstate * regs) :=
-    exec_prog p y0 normalized d (f_worker_prog facts) st regs0.
+    exec_prog (f_quot facts) p y0 normalized d (f_worker_prog facts) st regs0.
 
   (** response_coefficients(parallel=False): `map(worker, inputs)` on the caller's own model *)
   Fixpoint resp_seq (d : Q) (normalized : bool) (y0 : option alist) (to_scan : list name) (st : mstate)
@@ -324,6 +354,23 @@ Section Routines.
     : option (mstate * list (name * regs)) :=
     option_map (fun rs => (st, rs))
       (opt_map (fun p => option_map (fun r => (p, snd r)) (worker d normalized y0 p st)) to_scan).
+
+  (** response_coefficients under an arbitrary SCHEDULE of the pool: the inputs are cut into chunks;
+      every chunk is run on its own (pickled) copy of the caller's model, the tasks of one chunk one
+      after the other on that copy (a worker process that keeps using the function object it
+      unpickled); results come back in input order; the caller's model is not touched.
+      [resp_par] is the schedule of singleton chunks (pebble's chunksize 1), the results of
+      [resp_seq] are the schedule with one chunk. *)
+  Fixpoint resp_chunks (d : Q) (normalized : bool) (y0 : option alist) (chunks : list (list name)) (st : mstate)
+    : option (list (name * regs)) :=
+    match chunks with
+    | [] => Some []
+    | c :: rest =>
+        match resp_seq d normalized y0 c st, resp_chunks d normalized y0 rest st with
+        | Some (_, rs), Some rs' => Some (rs ++ rs')
+        | _, _ => None
+        end
+    end.
 
   Definition resp_result (d : Q) (normalized : bool) (rs : list (name * regs))
     : option (list (name * (list cell * list cell))) :=
@@ -371,6 +418,46 @@ Fixpoint sc (n : nat) (D : Q) : Q * Q :=
 Definition sdiff (n : nat) (D : Q) : Q := fst (sc n D).
 Definition csum (n : nat) (D : Q) : Q := snd (sc n D).
 Fixpoint qnat (n : nat) : Q := match n with O => 0 | S m => qnat m + 1 end.
+
+(** the same at a ZERO value with ABSOLUTE displacement (rule QuotCentralRelAbs0):
+    (+-d)^n = zcsum n d^2 +- d * zdiff n d^2,  so  zdiff n (d*d) = (d^n - (-d)^n) / (2 d)
+    = 0, 1, 0, d^2, 0, d^4, ...  -- the derivative of v^n at 0 is 0, 1, 0, 0, ... *)
+Fixpoint zsc (n : nat) (D : Q) : Q * Q :=
+  match n with
+  | O => (0, 1)
+  | S m => let '(s, c) := zsc m D in (c, D * s)
+  end.
+Definition zdiff (n : nat) (D : Q) : Q := fst (zsc n D).
+Definition zcsum (n : nat) (D : Q) : Q := snd (zsc n D).
+
+(* ------------------------------------------------------------------------------------- *)
+(** * mass-action families with a closed-form steady state (what the harness generates for the
+      response coefficients): the right-hand sides, written out *)
+
+(** linear chain  -> x1 -> x2 -> ... -> xn ->  with v0 = k0 and v_i = k_i * x_i :
+    fluxes and dx_i/dt = v_(i-1) - v_i for rate constants [ks] and concentrations [xs] *)
+Fixpoint chain_fluxes (ks xs : list Q) : list Q :=
+  match ks, xs with
+  | k :: ks', x :: xs' => k * x :: chain_fluxes ks' xs'
+  | _, _ => []
+  end.
+Fixpoint chain_rhs (vin : Q) (ks xs : list Q) : list Q :=
+  match ks, xs with
+  | k :: ks', x :: xs' => (vin - k * x) :: chain_rhs (k * x) ks' xs'
+  | _, _ => []
+  end.
+Definition chain_steady (k0 : Q) (ks : list Q) : list Q := map (fun k => k0 / k) ks.
+
+(** branch point  -> x  (v0 = k0),  x -> (v1 = k1 x),  x -> (v2 = k2 x) *)
+Definition branch_rhs (k0 k1 k2 x : Q) : Q := k0 - k1 * x - k2 * x.
+Definition branch_steady (k0 k1 k2 : Q) : Q := k0 / (k1 + k2).
+
+(** conserved two-pool cycle  x0 <-> x1  (v0 = k0 x0, v1 = k1 x1), total T = x0 + x1 *)
+Definition cycle_rhs (k0 k1 x0 x1 : Q) : Q * Q := (k1 * x1 - k0 * x0, k0 * x0 - k1 * x1).
+Definition cycle_steady (k0 k1 T : Q) : Q * Q := (T * k1 / (k0 + k1), T * k0 / (k0 + k1)).
+
+(** a quantity that depends on ONE parameter k as the Moebius function (a + b k) / (e + g k) *)
+Definition moebius (a b e g k : Q) : Q := (a + b * k) / (e + g * k).
 
 (* ------------------------------------------------------------------------------------- *)
 (** * comparison helpers for the correspondence files *)
